@@ -87,8 +87,10 @@ def main():
         elif r['kind'] == 'scan':
             hits = scan_unsafe(r['file'])
             res = {'ok': not hits}
+        elif r['name'].startswith('send_sync_clone_static'):
+            res = trait_probe(0, r.get('features', ['with-alloc', 'std', 'serde', 'block-boundary']))
         else:
-            res = run_probes()[r['name']]
+            res = run_probes(only=[])[r['name']]
         if res['ok']:
             print('replay: property held'); return 0
         print(f'VIOLATION property=C20 replay={sys.argv[2]}'); return 1
@@ -133,7 +135,7 @@ def main():
             violations.append((sig, r, f"miniz_oxide does not build with -F unsafe_code for target {r['target']} features {r['features']}"))
     for name, r in probes.items():
         if not r['ok']:
-            violations.append((f'c20:probe:{name}', dict(r, kind='probe'), f'probe {name} failed'))
+            violations.append((f'c20:probe:{name}', dict(r, kind='probe'), f'probe {name} failed: ' + ' | '.join(l for l in r['log_tail'].splitlines() if l.startswith('error'))[:300]))
     for h in scan_hits:
         violations.append(('c20:unsafe-token', h, f"`unsafe` at {h['file']}:{h['line']}: {h['text']}"))
 
@@ -144,8 +146,8 @@ def main():
         'coverage': {
             'evaluations': len(results) + len(probes) + len(files),
             'distinct_nontrivial': len({(r['target'], tuple(r['features'])) for r in nontrivial}),
-            'rule': 'configurations are the generated input, the compiler/linker the oracle: every one of the 32 subsets of {with-alloc, std, serde, block-boundary, simd} (x 4 targets in the thorough tier: host, i686, aarch64, x86_64-unknown-none via -Zbuild-std) is built with `cargo rustc --lib --no-default-features --features ... -- -F unsafe_code`; a #![no_std] staticlib without global allocator that calls inflate::core::decompress must link against default-features=false; compile-time Send+Sync+Clone+\'static assertions for the public state types; plus one lexical scan of every .rs file for the token `unsafe` outside comments/strings (the one non-behavioural oracle, for cfg arms no available target compiles). Non-trivial = a (target, feature set) other than the default host build, i.e. at least one cfg-dependent item differs',
-            'samples': [{'target': r['target'], 'features': r['features'], 'ok': r['ok'], 'secs': r['secs']} for r in results[:3]] + [{'probe': k, 'ok': v['ok']} for k, v in probes.items()],
+            'rule': 'configurations are the generated input, the compiler/linker the oracle: every one of the 32 subsets of {with-alloc, std, serde, block-boundary, simd} (x 4 targets in the thorough tier: host, i686, aarch64, x86_64-unknown-none via -Zbuild-std) is built with `cargo rustc --lib --no-default-features --features ... -- -F unsafe_code`; a #![no_std] staticlib without global allocator that calls inflate::core::decompress must link against default-features=false; compile-time Send+Sync+Clone+\'static assertions for the public state types, evaluated in each of the 32 feature sets (items that exist only under a feature are asserted under exactly that feature); plus one lexical scan of every .rs file for the token `unsafe` outside comments/strings (the one non-behavioural oracle, for cfg arms no available target compiles). Non-trivial = a (target, feature set) other than the default host build, i.e. at least one cfg-dependent item differs',
+            'samples': [{'target': r['target'], 'features': r['features'], 'ok': r['ok'], 'secs': r['secs']} for r in results[:3]] + [{'probe': k, 'ok': v['ok']} for k, v in list(probes.items())[:4]],
             'exhaustive': True,
             'exhaustive_subspace': 'all 32 feature subsets' + (' x {host, i686-unknown-linux-gnu, aarch64-unknown-linux-gnu} + 16 std-less subsets on x86_64-unknown-none' if tier == 'thorough' else ' on the host target'),
             'builds': len(results), 'probes': {k: v['ok'] for k, v in probes.items()},
@@ -172,12 +174,26 @@ def main():
         return 1
     return 0
 
-def run_probes():
+def run_probes(only=None):
     tdir = f'{HERE}/target/probes'
-    return {
-        'no_std_no_alloc_staticlib': probe('no_std_no_alloc_staticlib', ['cargo', 'build', '--offline', '--release', '--target-dir', tdir], f'{HERE}/probe_noalloc'),
-        'send_sync_clone_static': probe('send_sync_clone_static', ['cargo', 'check', '--offline', '--target-dir', tdir], f'{HERE}/probe_traits'),
-    }
+    out = {'no_std_no_alloc_staticlib': probe('no_std_no_alloc_staticlib', ['cargo', 'build', '--offline', '--release', '--target-dir', tdir], f'{HERE}/probe_noalloc')}
+    # the trait assertions are evaluated in every feature set (a derive can be feature-conditional)
+    def one(args):
+        k, f = args
+        return trait_probe(k % 4, f)
+    with ThreadPoolExecutor(4) as ex:
+        for r in ex.map(one, enumerate(only if only is not None else list(subsets()))):
+            out[r['name']] = r
+    return out
+
+def trait_probe(slot, feats):
+    name = 'send_sync_clone_static[' + ','.join(feats) + ']'
+    cmd = ['cargo', 'check', '--offline', '--no-default-features', '--target-dir', f'{HERE}/target/traits{slot}']
+    if feats:
+        cmd += ['--features', ','.join(feats)]
+    r = probe(name, cmd, f'{HERE}/probe_traits')
+    r['features'] = feats
+    return r
 
 if __name__ == '__main__':
     sys.exit(main())
